@@ -189,7 +189,11 @@ func (fx *FuncExec) freshValueR(hint string, t types.Type, st *State, reach *Ter
 	case *types.Pointer:
 		r := ts.Fresh(hint, SInt)
 		fx.ptrFacts(r, st, reach)
-		return VPtr{ptrKey(u.Elem()), r, u.Elem()}
+		p := VPtr{ptrKey(u.Elem()), r, u.Elem()}
+		if st != nil {
+			fx.assumeHeapInvariants(p, st, reach)
+		}
+		return p
 	case *types.Slice:
 		s := mkSlice(ts.Fresh(hint+".arr", SInt), ts.Fresh(hint+".off", SInt), ts.Fresh(hint+".len", SInt), ts.Fresh(hint+".cap", SInt), u.Elem())
 		fx.sliceFacts(s, st, reach)
@@ -343,19 +347,7 @@ func (fx *FuncExec) typedScalar(st *State, reach *Term, v *Term, t types.Type) V
 			fx.addFact(reach, ts.mk("<", SBool, v, fx.heapGet(st, allocKey, SInt)))
 		}
 		p := VPtr{ptrKey(u.Elem()), v, u.Elem()}
-		// types with a declared `heapinvariant` keep it for every object in the heap (it is established where such
-		// objects are built, and nothing else writes them)
-		if invs := fx.eng.cs.HeapInvs[typeKey(u.Elem())]; len(invs) > 0 && fx.invDepth == 0 && !v.bound && !fx.invSeen[v.id] {
-			fx.invSeen[v.id] = true
-			fx.invDepth++
-			for _, c := range invs {
-				env := &cenv{fx: fx, st: st, old: st, binds: map[string]Value{"self": p}, reach: reach, params: map[string]Value{}}
-				if t, err := fx.evalClause(c, env); err == nil {
-					fx.addFact(reach, ts.Implies(ts.Ne(v, ts.Int(0)), t))
-				}
-			}
-			fx.invDepth--
-		}
+		fx.assumeHeapInvariants(p, st, reach)
 		return p
 	}
 	return VOpaque{v, t}
@@ -1515,4 +1507,24 @@ func (fx *FuncExec) assumeChanInv(fn *ssa.Function, st *State, reach *Term, key 
 			fx.unsupported("channel invariant of " + key + ": " + err.Error())
 		}
 	}
+}
+
+// assumeHeapInvariants: types with a declared `heapinvariant` keep it for every object in the heap (it is established
+// where such objects are built, and nothing else writes them), so it is assumed for every pointer value met.
+func (fx *FuncExec) assumeHeapInvariants(p VPtr, st *State, reach *Term) {
+	ts := fx.ts
+	v := p.ref
+	invs := fx.eng.cs.HeapInvs[typeKey(p.typ)]
+	if len(invs) == 0 || fx.invDepth != 0 || v.bound || fx.invSeen[v.id] || st == nil {
+		return
+	}
+	fx.invSeen[v.id] = true
+	fx.invDepth++
+	for _, c := range invs {
+		env := &cenv{fx: fx, st: st, old: st, binds: map[string]Value{"self": p}, reach: reach, params: map[string]Value{}}
+		if t, err := fx.evalClause(c, env); err == nil {
+			fx.addFact(reach, ts.Implies(ts.Ne(v, ts.Int(0)), t))
+		}
+	}
+	fx.invDepth--
 }
